@@ -335,6 +335,14 @@ def _allclose(a, b, rtol=1e-05, atol=1e-08, equal_nan=False):
     return r
 
 
+def _unshadow(x):
+    if x is sym_float:
+        return float
+    if x is sym_int:
+        return int
+    return x
+
+
 def _make_shim(mod, name, model):
     orig = getattr(mod, name)
     if isinstance(orig, type):
@@ -357,6 +365,9 @@ def _make_shim(mod, name, model):
     def shim(*a, **k):
         if any_proxy(a, k):
             return model(*a, **k)
+        # the shadowed builtins float/int may arrive here as dtype arguments
+        a = tuple(_unshadow(x) for x in a)
+        k = {kk: _unshadow(v) for kk, v in k.items()}
         return orig(*a, **k)
 
     shim.__name__ = name
